@@ -435,6 +435,11 @@ def run(ctx):
     from ..sharedstate import shared_default_rule
     shared_default_rule(ctx, "R05.7", ("wavespectra.estimators",))
     ctx.require_count("R05.7", 1)
+    # ------------------------------------------------------------------ R05.8 a single set of moments (batch shape ()) is admissible
+    from ..rank import rank_rule
+    fe = p.get_function("wavespectra.estimators.estimate.estimate_directional_distribution")
+    rank_rule(ctx, "R05.8", fe, set(fe.params[:4]), "the directional moments")
+    ctx.require_count("R05.8", 1)
     ctx.require_count("R05.1", 3)
     ctx.require_count("R05.2", 4)
     ctx.require_count("R05.3", 13)
